@@ -115,6 +115,9 @@ type c04Plan struct {
 	Wrong    []string `json:"wrong_passwords"`
 	RealKDF  bool     `json:"real_kdf"` // run the at-rest part with the production scrypt cost
 	GarbleOp int      `json:"garble_op"`
+	// Replace = k > 0: before the examined round, an earlier round is completed with everybody and then participant k-1
+	// replaces its airgapped machine (same user name, new keys) while the other machines keep running
+	Replace int `json:"replace,omitempty"`
 }
 
 func c04Gen(rt *rapid.T) c04Plan {
@@ -123,10 +126,20 @@ func c04Gen(rt *rapid.T) c04Plan {
 	for i := 0; i < 3; i++ {
 		p.Wrong = append(p.Wrong, rapid.SampledFrom([]string{"", "x", "operator-password-", "operator-password-9", "OPERATOR-PASSWORD-0", strings.Repeat("long", 40), "operator-password-0 "}).Draw(rt, "wrong"))
 	}
+	if rapid.IntRange(0, 2).Draw(rt, "replace") == 0 {
+		p.Replace = 1 + rapid.IntRange(0, p.N-1).Draw(rt, "replaced")
+	}
 	return p
 }
 
 func c04Run(t *testing.T, st *vstat.Stats, p c04Plan) (v *viol) {
+	if p.RealKDF {
+		// the whole case - key creation, ceremony, at-rest part - runs with the production scrypt cost (one cost for
+		// encrypting and decrypting; the harness default is the lowered one)
+		oldN := airgapped.N
+		airgapped.N = world.DefaultScryptN
+		defer func() { airgapped.N = oldN }()
+	}
 	synctest.Test(t, func(t *testing.T) {
 		root := tmpRoot("c04-")
 		defer os.RemoveAll(root)
@@ -136,6 +149,21 @@ func c04Run(t *testing.T, st *vstat.Stats, p c04Plan) (v *viol) {
 			return
 		}
 		defer w.Close()
+		if p.Replace > 0 {
+			_, err := w.StartDKG(p.N-1, p.T, nil)
+			if err == nil {
+				err = w.Quiesce(80)
+			}
+			if err == nil {
+				time.Sleep(time.Hour)
+				err = w.ReplaceMachine(p.Replace-1, "new")
+			}
+			if err != nil {
+				v = violf("harness", "earlier round: %v", err)
+				return
+			}
+			st.Class("machine-replaced-after-earlier-round")
+		}
 		round, err := w.StartDKG(0, p.T, nil)
 		if err != nil {
 			v = violf("harness", "%v", err)
@@ -209,6 +237,40 @@ func c04Run(t *testing.T, st *vstat.Stats, p c04Plan) (v *viol) {
 				// nothing
 			}
 		}
+		var secKeys []kyber.Scalar
+		for _, m := range w.Machines {
+			sk, _, _ := m.M.VerifSecrets(round)
+			secKeys = append(secKeys, sk)
+		}
+		// (b) a deal can be opened with its addressee's key only
+		base := bls12381.NewBLS12381Suite(nil)
+		deals := 0
+		for _, m := range w.Board.All() {
+			if m.DkgRoundID != round {
+				continue
+			}
+			if m.Event != "event_dkg_deal_confirm_received" || m.RecipientAddr == m.SenderAddr {
+				continue
+			}
+			var req requests.DKGProposalDealConfirmationRequest
+			if json.Unmarshal(m.Data, &req) != nil {
+				continue
+			}
+			deals++
+			for j := range w.Machines {
+				plain, err := ecies.Decrypt(base, secKeys[j], req.Deal, base.Hash)
+				opened := err == nil && json.Valid(plain)
+				addressee := w.Names[j] == m.RecipientAddr
+				if opened && !addressee {
+					v = violf("deal-opened-by-non-addressee", "the deal %s -> %s can be decrypted with %s's key", m.SenderAddr, m.RecipientAddr, w.Names[j])
+					return
+				}
+				if !opened && addressee {
+					v = violf("deal-not-openable-by-addressee", "the deal %s -> %s cannot be decrypted with the addressee's key: %v", m.SenderAddr, m.RecipientAddr, err)
+					return
+				}
+			}
+		}
 		for i := range w.Nodes {
 			if s := w.StateOf(i, round); s != "stage_signing_idle" {
 				v = violf("harness", "ceremony did not complete: node %d in %s", i, s)
@@ -217,10 +279,8 @@ func c04Run(t *testing.T, st *vstat.Stats, p c04Plan) (v *viol) {
 		}
 		// secrets, taken from the live machines
 		var secrets []secret
-		var secKeys []kyber.Scalar
 		for i, m := range w.Machines {
 			sk, seed, coeffs := m.M.VerifSecrets(round)
-			secKeys = append(secKeys, sk)
 			secrets = append(secrets, scalarSecret(fmt.Sprintf("long-term-key#%d", i), sk), secret{fmt.Sprintf("seed#%d", i), seed})
 			for k, c := range coeffs {
 				secrets = append(secrets, scalarSecret(fmt.Sprintf("dealer-coefficient#%d/%d", i, k), c))
@@ -307,39 +367,8 @@ func c04Run(t *testing.T, st *vstat.Stats, p c04Plan) (v *viol) {
 				return
 			}
 		}
-		// (b) a deal can be opened with its addressee's key only
-		base := bls12381.NewBLS12381Suite(nil)
-		deals := 0
-		for _, m := range w.Board.All() {
-			if m.Event != "event_dkg_deal_confirm_received" || m.RecipientAddr == m.SenderAddr {
-				continue
-			}
-			var req requests.DKGProposalDealConfirmationRequest
-			if json.Unmarshal(m.Data, &req) != nil {
-				continue
-			}
-			deals++
-			for j := range w.Machines {
-				plain, err := ecies.Decrypt(base, secKeys[j], req.Deal, base.Hash)
-				opened := err == nil && json.Valid(plain)
-				addressee := w.Names[j] == m.RecipientAddr
-				if opened && !addressee {
-					v = violf("deal-opened-by-non-addressee", "the deal %s -> %s can be decrypted with %s's key", m.SenderAddr, m.RecipientAddr, w.Names[j])
-					return
-				}
-				if !opened && addressee {
-					v = violf("deal-not-openable-by-addressee", "the deal %s -> %s cannot be decrypted with the addressee's key: %v", m.SenderAddr, m.RecipientAddr, err)
-					return
-				}
-			}
-		}
 		// (c) at rest: plaintext of the private key and the shares never appears in the database files;
 		//     with a wrong password they cannot be loaded (the seed is stored in clear by design and is not searched)
-		oldN := airgapped.N
-		if p.RealKDF {
-			airgapped.N = world.DefaultScryptN
-		}
-		defer func() { airgapped.N = oldN }()
 		target := p.Tag % p.N
 		m := w.Machines[target]
 		atRest := []secret{}
